@@ -265,7 +265,9 @@ def modcovar(x, order):
 
     Cz = np.dot(X1.conj().transpose(), Xc)
     e = np.dot(X1.conj().transpose(), X1) + np.dot(Cz, a)
-    assert e.imag < 1e-4, 'wierd behaviour'
+    # the imaginary part is rounding noise: compare it with the energy of the
+    # predicted samples, not with an absolute number
+    assert abs(e.imag) <= 1e-4 * np.dot(X1.conj().transpose(), X1).real, 'wierd behaviour'
     e = float(e.real) # ignore imag part that should be small
 
     return a, e
